@@ -197,12 +197,13 @@ theorem kept_spec (g : Graph) (plan ins : List Nat) :
 /-! ## T4 — what is resolved is computable from the supplied values -/
 
 /-- `v` can be computed from the supplied values `S` and constants by deterministic
-operators alone: it does not (transitively) depend on a missing input nor on a
-non-deterministic operator. -/
+operators alone (that capture nothing from outside the graph): it does not (transitively)
+depend on a missing input nor on a non-deterministic operator. -/
 inductive Computable (g : Graph) (S : List Nat) : Nat → Prop
   | supplied {v : Nat} : v ∈ S → Computable g S v
   | const {v : Nat} : isConstant g v = true → Computable g S v
   | op {v p : Nat} {op : OpNode} : getOp g p = some op → op.deterministic = true →
+      hasUnresolvedCaptures g op = false →
       (∀ d ∈ opDeps g op, Computable g S d) → v ∈ opOutputs op → Computable g S v
 
 theorem computable_of_rContains {g : Graph} {S r : List Nat}
@@ -224,9 +225,9 @@ theorem resolved_computable (g : Graph) (plan ins : List Nat) :
     · intro v hv
       rcases List.mem_append.mp hv with hv | hv
       · exact h v hv
-      · obtain ⟨hdet, hres, _⟩ := prunedAt_false hp
+      · obtain ⟨hdet, hres, hcap⟩ := prunedAt_false hp
         rw [depsResolved_iff] at hres
-        exact .op hop hdet (fun d hd => computable_of_rContains h (hres d hd)) hv
+        exact .op hop hdet hcap (fun d hd => computable_of_rContains h (hres d hd)) hv
   · intro v hv
     exact .supplied (by simpa [pruneInit] using hv)
 
